@@ -52,7 +52,8 @@ def lex(src):
 
 
 NAT_TYPES = {"uint32_t", "unsigned", "uint16_t", "uint8_t", "size_t", "TSSymbol", "TSStateId",
-             "TSFieldId", "int32_t", "int"}
+             "TSFieldId"}
+INT_TYPES = {"int32_t", "int"}
 
 
 class Ctx:
@@ -91,9 +92,9 @@ class P:
         v = self.peek()
         if v in ("const", "struct"):
             return True
-        return self.kind() == "id" and (v in NAT_TYPES or v == "bool" or v in self.ctx.structs
+        return self.kind() == "id" and (v in NAT_TYPES or v in INT_TYPES or v == "bool" or v in self.ctx.structs
                                          or v in self.ctx.enums) and self.kind(1) in ("id",) or \
-            (self.kind() == "id" and (v in NAT_TYPES or v == "bool" or v in self.ctx.structs
+            (self.kind() == "id" and (v in NAT_TYPES or v in INT_TYPES or v == "bool" or v in self.ctx.structs
                                       or v in self.ctx.enums) and self.peek(1) == "*")
 
     def parse_type(self):
@@ -194,6 +195,12 @@ class P:
                 init = self.init_or_expr(ty[0])
             self.eat(";")
             return ("decl", ty, name, init)
+        # `(void)x;` -- marks a parameter as deliberately unused; no effect
+        if v == "(" and self.peek(1) == "void" and self.peek(2) == ")" and self.peek(4) == ";":
+            self.eat(); self.eat(); self.eat()
+            n = self.eat()
+            self.eat(";")
+            return ("void_use", n)
         # assignment or expression statement
         lhs = self.unary()
         if self.peek() == "=":
@@ -278,7 +285,7 @@ class P:
             return ("addr", self.unary())
         if v == "(":
             # cast or compound literal or parenthesised
-            if self.kind(1) == "id" and (self.peek(1) in self.ctx.structs or self.peek(1) in NAT_TYPES
+            if self.kind(1) == "id" and (self.peek(1) in self.ctx.structs or self.peek(1) in NAT_TYPES or self.peek(1) in INT_TYPES
                                           or self.peek(1) in self.ctx.enums or self.peek(1) == "bool") \
                     and self.peek(2) == ")":
                 self.eat()
@@ -362,6 +369,8 @@ def lean_type(ctx, ty):
     name = ty[0] if isinstance(ty, tuple) else ty
     if name in NAT_TYPES:
         return "Nat"
+    if name in INT_TYPES:
+        return "Int"
     if name == "bool":
         return "Bool"
     if name in ctx.structs or name in ctx.enums:
@@ -626,6 +635,8 @@ class Gen:
             return line + self.tr(rest, k, ind)
         if kind == "return":
             return pad + self.ret_expr(s[1]) + "\n"
+        if kind == "void_use":
+            return self.tr(list(rest), k, ind)
         if kind == "break":
             return pad + k() + "\n"
         if kind == "if":
@@ -714,7 +725,7 @@ class Gen:
         return " × ".join(parts)
 
 
-def translate_function(ctx, src, name, mode, lean_name=None):
+def translate_function(ctx, src, name, mode, lean_name=None, drop_params=()):
     loc = find_function(src, name)
     if loc is None:
         raise SyntaxError("definition of %s not found" % name)
@@ -732,11 +743,20 @@ def translate_function(ctx, src, name, mode, lean_name=None):
             break
         ty = p.parse_type()
         pn = p.eat()
-        params.append((ty, pn))
+        if pn not in drop_params:
+            params.append((ty, pn))
         if p.peek() == ",":
             p.eat()
     p.eat(")")
+    body_start = p.i
     body = p.block()
+    # a dropped parameter (an opaque handle such as `TSParser *self`) may occur in the body only as `(void)x;`
+    for dp in drop_params:
+        uses = [j for j in range(body_start, len(toks)) if toks[j] == ("id", dp)]
+        for j in uses:
+            ctxt = [t[1] for t in toks[j - 3:j + 2]]
+            if ctxt != ["(", "void", ")", dp, ";"]:
+                raise SyntaxError("dropped parameter %s is used in the body of %s" % (dp, name))
     g = Gen(ctx, name, ret, params, mode)
     # Unknown ALL-CAPS identifiers that are #define'd integer constants of the same file are
     # resolved automatically (a refactoring that names a literal must not break the tie).
@@ -894,7 +914,7 @@ def main():
                     if a.raw:
                         # the canonical structure must have exactly these fields, of these types, in this order
                         flds = ctx.structs[name]
-                        txt = ("/- layout check against the canonical TsGen.%s -/\n" % name +
+                        txt = ("/- layout check against the canonical TsGen.%s -/\nopen TsGen (%s)\n" % (name, name) +
                                "example %s : TsGen.%s := TsGen.%s.mk %s\n" % (
                                    " ".join("(%s : %s)" % (f, lean_type(ctx, t)) for f, t in flds), name, name,
                                    " ".join(f for f, _ in flds)) +
@@ -915,6 +935,16 @@ def main():
                     line = 0
                 elif kind == "define":
                     val = const_expr(ctx, parse_define(s, name))
+                    ctx.consts[name] = ("uint32_t", val)
+                    txt = "def %s : Nat := %d\n" % (name, val)
+                    sha = hashlib.sha256(txt.encode()).hexdigest()[:16]
+                    line = 0
+                elif kind == "const_uint":
+                    # e.g. static const unsigned MAX_COST_DIFFERENCE = 18 * ERROR_COST_PER_SKIPPED_TREE;
+                    m = re.search(r"static\s+const\s+(?:unsigned|uint32_t|unsigned\s+int)\s+%s\s*=\s*([^;]*);" % re.escape(name), s)
+                    if not m:
+                        raise SyntaxError("static const unsigned %s not found" % name)
+                    val = const_expr(ctx, m.group(1))
                     ctx.consts[name] = ("uint32_t", val)
                     txt = "def %s : Nat := %d\n" % (name, val)
                     sha = hashlib.sha256(txt.encode()).hexdigest()[:16]
@@ -945,7 +975,8 @@ def main():
                 elif kind == "func":
                     s2 = s.replace("UINT32_MAX", "4294967295").replace("UINT8_MAX", "255").replace("UINT16_MAX", "65535")
                     txt, sha, line, _ = translate_function(ctx, s2, name, item.get("mode", "nat"),
-                                                           item.get("lean_name"))
+                                                           item.get("lean_name"),
+                                                           tuple(item.get("drop_params", ())))
                 else:
                     raise SyntaxError("unknown kind " + kind)
                 lines.append("/- %s:%s  %s  sha256=%s -/\n" % (rel, line, name, sha))
